@@ -144,6 +144,7 @@ void body_t(const Prog& p)
                     switch (k) {
                         case ADD:
                         case ADD_EXT: {
+                            stamp();  // id allocation order is ordering relevant
                             int id = g_next_id++;
                             if (id >= MAXID) break;
                             auto sp = std::make_shared<Obj>(id, reenter);
